@@ -38,24 +38,27 @@ func c02Gen(t *rapid.T) c02Case {
 	// equal up to the node name).
 	if rapid.IntRange(0, 2).Draw(t, "twin") == 0 {
 		var cands []*egPart
-		var walk func(a *egAlt)
-		walk = func(a *egAlt) {
+		var owner []int // nonterminal in which the candidate occurs
+		var walk func(a *egAlt, nt int)
+		walk = func(a *egAlt, nt int) {
 			for _, p := range a.Parts {
 				if p.K == "list" || p.K == "opt" {
 					cands = append(cands, p)
+					owner = append(owner, nt)
 				}
 				for _, s := range p.Alts {
-					walk(s)
+					walk(s, nt)
 				}
 			}
 		}
-		for _, nt := range c.G.NTs {
+		for i, nt := range c.G.NTs {
 			for _, a := range nt.Alts {
-				walk(a)
+				walk(a, i)
 			}
 		}
 		if len(cands) > 0 {
-			src := cands[rapid.IntRange(0, len(cands)-1).Draw(t, "twinOf")]
+			k := rapid.IntRange(0, len(cands)-1).Draw(t, "twinOf")
+			src := cands[k]
 			var cp egPart
 			js, _ := json.Marshal(src)
 			json.Unmarshal(js, &cp)
@@ -63,7 +66,9 @@ func c02Gen(t *rapid.T) c02Case {
 			for cp.Alts[0].Node == old {
 				cp.Alts[0].Node = fmt.Sprintf("N%d", rapid.IntRange(0, 6).Draw(t, "twinNode"))
 			}
-			nt := c.G.NTs[rapid.IntRange(0, len(c.G.NTs)-1).Draw(t, "twinNT")]
+			// the copy goes into the same or an earlier nonterminal: references only point to later
+			// nonterminals, so the grammar stays free of recursion (every sentence form is finite)
+			nt := c.G.NTs[rapid.IntRange(0, owner[k]).Draw(t, "twinNT")]
 			a := nt.Alts[rapid.IntRange(0, len(nt.Alts)-1).Draw(t, "twinAlt")]
 			a.Parts = append(a.Parts, &egPart{K: "t", Sym: rapid.IntRange(1, c.G.T-1).Draw(t, "twinGuard")}, &cp)
 		}
